@@ -284,8 +284,28 @@ def groupClassName (members : List (String × NA)) (cn : String) (cl : Classes) 
         | none => false)
     then uniqueName cn cl (cl.length + 1) 1 else cn
 
-/-- _makeMarkClassDefinitions, starting from the mark classes the feature file already defines -/
+/-- `ast.makeFeaClassName(name, existingClassNames)` for a name that already is legal: the name itself when it is free,
+    else the first free `name_1`, `name_2`, … -/
+def freshName (cn : String) (cl : Classes) : String :=
+  if cl.any (fun e => e.1 == cn) then uniqueName cn cl (cl.length + 1) 1 else cn
+
+/-- one anchor group of _makeMarkClassDefinitions; the state carries `generatedClassNames`.  A sanitised class name that
+    a previous group of this run ended up with belongs to a DIFFERENT anchor name ('top-alt' / 'topalt'): the group takes a
+    fresh unique name before the clash test against hand-written definitions runs. -/
+def groupStep (me : AList) (st : ClsState × List String) (n : String) : ClsState × List String :=
+  let cn0 := sanitize ("MC" ++ n)
+  let cn1 := if st.2.contains cn0 then freshName cn0 st.1.classes else cn0
+  let r := defineGroup (groupOf me n) (groupClassName (groupOf me n) cn1 st.1.classes) st.1
+  (r.1, st.2 ++ [r.2])
+
+/-- _makeMarkClassDefinitions, starting from the mark classes the feature file already defines; the groups are taken in
+    sorted order of the mark anchor names, so of two colliding names the smaller keeps the plain class name -/
 def makeClassesFrom (cl0 : Classes) (me : AList) : ClsState :=
+  ((groupNames me).foldl (groupStep me) (⟨cl0, []⟩, [])).1
+
+/-- _makeMarkClassDefinitions BEFORE the repair: two anchor names with the same sanitised class name shared one mark class.
+    Kept for the counterexample only. -/
+def makeClassesFromOld (cl0 : Classes) (me : AList) : ClsState :=
   (groupNames me).foldl (fun st n =>
     (defineGroup (groupOf me n) (groupClassName (groupOf me n) (sanitize ("MC" ++ n)) st.classes) st).1) ⟨cl0, []⟩
 
